@@ -18,6 +18,148 @@ class Budget(Exception):
     pass
 
 
+class Undecided(Exception):
+    """An abstract value cannot answer (a comparison of an interval that straddles the bound, an addition that may carry)."""
+
+
+class Iv:
+    """Integer interval [lo, hi] (hi None: unbounded above): a length of which only a lower bound matters."""
+
+    def __init__(self, lo, hi=None):
+        self.lo, self.hi = lo, hi
+
+    def _cmp(self, k, lt_all, ge_all):
+        if not isinstance(k, int):
+            raise Undecided()
+        if lt_all(k):
+            return True
+        if ge_all(k):
+            return False
+        raise Undecided()
+
+    def __lt__(self, k):
+        return self._cmp(k, lambda k: self.hi is not None and self.hi < k, lambda k: self.lo >= k)
+
+    def __le__(self, k):
+        return self._cmp(k, lambda k: self.hi is not None and self.hi <= k, lambda k: self.lo > k)
+
+    def __gt__(self, k):
+        return self._cmp(k, lambda k: self.lo > k, lambda k: self.hi is not None and self.hi <= k)
+
+    def __ge__(self, k):
+        return self._cmp(k, lambda k: self.lo >= k, lambda k: self.hi is not None and self.hi < k)
+
+    def __eq__(self, k):
+        if isinstance(k, Iv):
+            return (self.lo, self.hi) == (k.lo, k.hi)
+        if isinstance(k, int) and (k < self.lo or (self.hi is not None and k > self.hi)):
+            return False
+        if isinstance(k, int) and self.lo == self.hi == k:
+            return True
+        raise Undecided()
+
+    def __ne__(self, k):
+        return not self.__eq__(k)
+
+    def __hash__(self):
+        return hash((self.lo, self.hi))
+
+    def __bool__(self):
+        return self.__ne__(0)
+
+    def __add__(self, k):
+        if not isinstance(k, int):
+            raise Undecided()
+        return Iv(self.lo + k, None if self.hi is None else self.hi + k)
+
+    __radd__ = __add__
+
+    def __sub__(self, k):
+        return self.__add__(-k) if isinstance(k, int) else (_ for _ in ()).throw(Undecided())
+
+    def __repr__(self):
+        return "[%s,%s]" % (self.lo, "inf" if self.hi is None else self.hi)
+
+
+class Bits:
+    """Bit provenance: an unsigned value of width w each of whose bits is 0, 1, a named source bit (name, k), or None
+    (unknown).  Shifts by constants, masks, and additions whose operands never have a possibly-set bit in the same place
+    (t <<= 8; t += byte) are exact; anything else is Undecided."""
+
+    def __init__(self, bits):
+        self.b = tuple(bits)
+
+    @staticmethod
+    def const(v, w):
+        return Bits((v >> i) & 1 for i in range(w))
+
+    @staticmethod
+    def sym(name, n, w=None):
+        return Bits([(name, k) for k in range(n)] + [0] * ((w or n) - n))
+
+    def resize(self, w):
+        return Bits((self.b + (0,) * w)[:w])
+
+    def _co(self, o):
+        if isinstance(o, Bits):
+            w = max(len(self.b), len(o.b))
+            return self.resize(w), o.resize(w)
+        if isinstance(o, int) and o >= 0:
+            w = max(len(self.b), o.bit_length())
+            return self.resize(w), Bits.const(o, w)
+        raise Undecided()
+
+    def __lshift__(self, n):
+        if not isinstance(n, int) or n < 0:
+            raise Undecided()
+        return Bits(((0,) * n + self.b)[:len(self.b)])
+
+    def __rshift__(self, n):
+        if not isinstance(n, int) or n < 0:
+            raise Undecided()
+        return Bits(self.b[n:] + (0,) * min(n, len(self.b)))
+
+    def __and__(self, o):
+        a, c = self._co(o)
+        return Bits(0 if (x == 0 or y == 0) else (y if x == 1 else (x if y == 1 else (x if x == y else None))) for x, y in zip(a.b, c.b))
+
+    __rand__ = __and__
+
+    def __or__(self, o):
+        a, c = self._co(o)
+        return Bits(y if x == 0 else (x if y == 0 else (1 if (x == 1 or y == 1) else (x if x == y else None))) for x, y in zip(a.b, c.b))
+
+    __ror__ = __or__
+
+    def __add__(self, o):
+        a, c = self._co(o)
+        if any(x != 0 and y != 0 for x, y in zip(a.b, c.b)):
+            raise Undecided()        # a carry is possible
+        return a | c
+
+    __radd__ = __add__
+
+    def __eq__(self, o):
+        return isinstance(o, Bits) and self.b == o.b
+
+    def __ne__(self, o):
+        return not self.__eq__(o)
+
+    def __hash__(self):
+        return hash(self.b)
+
+    def __lt__(self, o):
+        raise Undecided()
+
+    __le__ = __gt__ = __ge__ = __lt__
+
+    def __bool__(self):
+        raise Undecided()
+
+    def __repr__(self):
+        return "Bits(%s)" % ",".join("0" if x == 0 else "1" if x == 1 else "?" if x is None else "%s.%d" % x for x in self.b)
+
+
 CMP = {"==": lambda a, b: a == b, "!=": lambda a, b: a != b, "<": lambda a, b: a < b, "<=": lambda a, b: a <= b,
        ">": lambda a, b: a > b, ">=": lambda a, b: a >= b}
 
@@ -44,10 +186,27 @@ def ev(n, env):
         return n[1] if isinstance(n[1], int) else None
     if t in CMP and len(n) == 3:
         a, b = ev(n[1], env), ev(n[2], env)
-        return None if a is None or b is None else int(CMP[t](a, b))
+        try:
+            return None if a is None or b is None else int(CMP[t](a, b))
+        except (Undecided, TypeError):
+            return None
     if t in ARITH and len(n) == 3:
         a, b = ev(n[1], env), ev(n[2], env)
-        return None if a is None or b is None else ARITH[t](a, b)
+        try:
+            return None if a is None or b is None else ARITH[t](a, b)
+        except (Undecided, TypeError):
+            return None
+    if t in ("upost++", "upost--") and len(n) == 2:
+        # the increment is an element of its own and has been executed: the expression's value is the old one
+        v = env.get(n[1])
+        try:
+            return None if v is None else (v - 1 if t == "upost++" else v + 1)
+        except (Undecided, TypeError):
+            return None
+    if t in ("*", "[]") and "$read" in env:
+        return env["$read"](n, env)
+    if t == "call" and "$call" in env:
+        return env["$call"](n, env)
     if t == "&&":
         a = ev(n[1], env)
         if a == 0:
@@ -97,9 +256,10 @@ class Walker:
     stop(elem) -> True ends a run at that element (before executing it).
     choose(cond_elem, env) -> True / False / None: the edge to take for a condition whose value is unknown (None: both)."""
 
-    def __init__(self, func, tracked, stop, choose=None, limit=20000, watch=None):
+    def __init__(self, func, tracked, stop, choose=None, limit=20000, watch=None, store=None):
         self.f = func
         self.watch = watch      # watch(elem, env): called for every element about to be executed
+        self.store = store      # store(target_norm, value, env, elem): called for assignments to untracked lvalues
         self.tracked = tracked
         self.stop = stop
         self.choose = choose or (lambda c, env: None)
@@ -109,6 +269,10 @@ class Walker:
         if tgt in self.tracked:
             if v is not None and self.tracked[tgt] == "float":
                 v = float(v)
+            elif isinstance(v, Bits):
+                v = v.resize(self.tracked[tgt][1])
+            elif isinstance(v, Iv):
+                pass
             elif v is not None:
                 if isinstance(v, float):
                     v = int(v)          # conversion to an integer type truncates towards zero
@@ -134,6 +298,15 @@ class Walker:
         if e.is_assign:
             tgt = norm(e.kid(0))
             if tgt not in self.tracked:
+                if self.store is not None:
+                    r = ev(norm(e.kid(1)), env)
+                    if e.op != "=":
+                        cur, op = ev(tgt, env), e.op[:-1]
+                        try:
+                            r = None if cur is None or r is None or op not in ARITH else ARITH[op](cur, r)
+                        except (Undecided, TypeError):
+                            r = None
+                    self.store(tgt, r, env, e)
                 return
             r = ev(norm(e.kid(1)), env)
             if e.op == "=":
@@ -141,13 +314,19 @@ class Walker:
             else:
                 op = e.op[:-1]
                 cur = env.get(tgt)
-                self._store(env, tgt, None if cur is None or r is None or op not in ARITH else ARITH[op](cur, r))
+                try:
+                    self._store(env, tgt, None if cur is None or r is None or op not in ARITH else ARITH[op](cur, r))
+                except (Undecided, TypeError):
+                    self._store(env, tgt, None)
             return
         if e.is_incdec:
             tgt = norm(e.kid(0))
             if tgt in self.tracked:
                 cur = env.get(tgt)
-                self._store(env, tgt, None if cur is None else cur + (1 if e.op.endswith("++") else -1))
+                try:
+                    self._store(env, tgt, None if cur is None else cur + (1 if e.op.endswith("++") else -1))
+                except (Undecided, TypeError):
+                    self._store(env, tgt, None)
             else:
                 # a tracked term computed through the stepped variable (the dereferenced cursor) is no longer known
                 for k in list(env):
@@ -162,7 +341,7 @@ class Walker:
         seen = set()
         while work:
             bid, i, env = work.pop()
-            key = (bid, i, tuple(sorted((repr(k), v) for k, v in env.items())))
+            key = (bid, i, tuple(sorted((repr(k), repr(v)) for k, v in env.items() if not (isinstance(k, str) and k.startswith("$")))))
             if key in seen:
                 continue
             seen.add(key)
@@ -193,6 +372,11 @@ class Walker:
                 continue
             kinds = edge_kinds(blk)
             v = ev(norm(blk.cond), env)
+            if v is not None and not isinstance(v, (int, float)):
+                try:
+                    v = int(bool(v))
+                except (Undecided, TypeError):
+                    v = None
             if kinds and kinds[0][1] in (True, False):
                 if v is None:
                     pick = self.choose(blk.cond, env)
